@@ -417,7 +417,13 @@ def r6_readonly(ctx: Ctx) -> None:
             # the destination dict may be chosen first (`target = transaction` / `target = transaction['field']`): every definition must be the
             # transaction or its 'field' dict; the key is then the transform's field name or 'description'
             ds = [afl.cfg.stmt[d] for d in afl.cfg.defs_reaching(s, t.value.id) if d != 'param']
-            root_ok = bool(ds) and all(isinstance(d_, ast.Assign) and src(d_.value) in (at.params[0], f"{at.params[0]}['field']") for d_ in ds)
+            def _txn_or_field(v) -> bool:
+                if src(v) in (at.params[0], f"{at.params[0]}['field']"):
+                    return True
+                # transaction.get('field'[, d]) / transaction.setdefault('field', {}): the transaction's own 'field' mapping
+                return isinstance(v, ast.Call) and isinstance(v.func, ast.Attribute) and v.func.attr in ('get', 'setdefault') and src(v.func.value) == at.params[0] \
+                    and bool(v.args) and isinstance(v.args[0], ast.Constant) and v.args[0].value == 'field'
+            root_ok = bool(ds) and all(isinstance(d_, ast.Assign) and _txn_or_field(d_.value) for d_ in ds)
             if root_ok and isinstance(key, ast.Name):
                 kds = [afl.cfg.stmt[d] for d in afl.cfg.defs_reaching(s, key.id) if d != 'param']
                 is_target = bool(kds) and all(isinstance(d_, ast.Assign) and ('name:field_path' in afl.atoms(d_.value, d_) or (isinstance(d_.value, ast.Constant) and d_.value.value == 'description'))
